@@ -242,7 +242,7 @@ pub fn classify(text: &str, c: &str) -> String {
     let Some((toks, eof)) = lex(text) else { return "attached=unlexable".into() };
     let cons = constructs(&toks);
     for (i, t) in toks.iter().enumerate() {
-        let pos = if t.trailing.contains(c) { Some("trailing") } else if t.leading.iter().any(|l| l == c) { Some("leading") } else { None };
+        let pos = if t.trailing.split('\r').any(|p| p.trim() == c) { Some("trailing") } else if t.leading.iter().any(|l| l == c) { Some("leading") } else { None };
         if let Some(pos) = pos {
             let mut kind = t.kind.clone();
             if kind == "Comma" {
